@@ -44,6 +44,7 @@ type Profile struct {
 	CatchLoad    bool   // the catch node may LOAD a symbol
 	BadUTF8      bool   // some results carry bytes that are not valid UTF-8
 	Refresh      bool   // nodes that render twice (… HALT; RELOAD …; HALT; INCMP …)
+	SizeFlip     bool   // a sink symbol is loaded under a size limit in some nodes
 	ManySyms     bool   // up to 28 external symbols, nodes that load up to 20 of them
 	Unicode      bool   // multi-byte UTF-8 in labels, translations, static template text and padded values
 	StaticSyms   bool   // some external symbols are static-load symbols with per-language entries
@@ -581,6 +582,20 @@ func Generate(t *tape.Tape, p Profile) *App {
 			}
 		}
 		a.Nodes = append(a.Nodes, nd)
+		t.End()
+	}
+
+	if p.SizeFlip {
+		// one symbol, two roles: a node that loads a sink symbol (size 0) loads it under a size limit
+		// instead, so the same name is a paginated sink in one node and an ordinary value in another
+		t.Begin("sizeflip")
+		for _, n := range a.Nodes {
+			for k := range n.Code {
+				if n.Code[k].Op == LOAD && n.Code[k].N == 0 && t.Chance(1, 3) {
+					n.Code[k].N = 400
+				}
+			}
+		}
 		t.End()
 	}
 
